@@ -1154,6 +1154,11 @@ class Parser:
         # Stack to track array elements at each depth level
         # Each element is a list of elements for that level
         array_stack: List[List[Node]] = [[] for _ in range(depth)]
+        # Does the array at each level expect an element next (it has just been
+        # opened, or a separating comma was read)? A comma then stands for an
+        # element that was left out: arrays have no holes here, so it is an
+        # element holding undefined ([1,,2] has length 3, [,] length 1)
+        wants_element: List[bool] = [True for _ in range(depth)]
 
         # Parse elements for innermost array first
         current_depth = depth - 1
@@ -1170,27 +1175,35 @@ class Parser:
                 if current_depth >= 0:
                     # Add this array as an element to the parent
                     array_stack[current_depth].append(array_expr)
+                    wants_element[current_depth] = False
                 else:
                     # We're done
                     return array_expr
             elif self._match(TokenType.COMMA):
-                # More elements in current array - handled by main loop
-                pass
+                if wants_element[current_depth]:
+                    array_stack[current_depth].append(
+                        UnaryExpression("void", NumericLiteral(0))
+                    )
+                wants_element[current_depth] = True
             elif self._check(TokenType.LBRACKET):
                 # Nested array - go deeper
                 self._advance()
                 current_depth += 1
                 if current_depth >= len(array_stack):
                     array_stack.append([])
+                    wants_element.append(True)
                 else:
                     array_stack[current_depth] = []
+                    wants_element[current_depth] = True
             else:
                 # Parse an element expression
                 element = self._parse_assignment_expression()
                 array_stack[current_depth].append(element)
+                wants_element[current_depth] = False
 
                 # Check for comma or closing bracket
                 if not self._check(TokenType.RBRACKET):
+                    wants_element[current_depth] = True
                     if not self._match(TokenType.COMMA):
                         self._expect(
                             TokenType.RBRACKET, "Expected ']' after array elements"
